@@ -152,7 +152,15 @@ pub struct Outcome {
     pub tie_branchings: u64,
 }
 
-const NODE_CAP: u64 = 400_000;
+/// exploration budget per run: generous on the small sets (never reached there, see the
+/// `reference_overflow` counter), tight on the large sets where floored similarities tie en masse
+fn node_cap(n: usize) -> u64 {
+    if n <= 8 {
+        400_000
+    } else {
+        150
+    }
+}
 
 struct Ex {
     tie_rel: f64,
@@ -170,7 +178,7 @@ impl Ex {
 
     fn go(&mut self, st: &St, prev_h: f64) {
         self.out.nodes += 1;
-        if self.out.nodes > NODE_CAP {
+        if self.out.nodes > node_cap(self.n) {
             self.out.overflow = true;
             return;
         }
